@@ -12,6 +12,7 @@ import (
 	"crypto/x509"
 	"errors"
 	"fmt"
+	"io"
 	"net/url"
 	"os"
 
@@ -54,6 +55,8 @@ type SignRequest struct {
 	In, Out string // Out == In or "" => in place
 	Digest  string // "" = sha256
 	Query   url.Values
+	// WrapStream, when set, is put between the transform's upload stream and the signer (read-split control)
+	WrapStream func(io.Reader) io.Reader
 }
 
 type SignResult struct {
@@ -112,6 +115,9 @@ func Sign(rq SignRequest) (*SignResult, error) {
 	stream, err := transform.GetReader()
 	if err != nil {
 		return nil, err
+	}
+	if rq.WrapStream != nil {
+		stream = rq.WrapStream(stream)
 	}
 	blob, err := mod.Sign(stream, cert, *opts)
 	if err != nil {
